@@ -6,10 +6,138 @@ STRABS, two clauses per module and per assignment of the boolean options:
                   ASCII spellings; non-ASCII results are C15's finding): compact(r) must be r
                   itself on every path, and every return path of validate(r) must hand back r
                   itself (same string identity), and at least one path must return.
+ C02.table-fixpoint  where validate() replaces a part by a table lookup through a key function, every table
+                  value is a fixed point of the lookup (de.handelsregisternummer court names and aliases).
+ C02.generator-sibling  beside a module's own calc_check_digit(s)() no other function attaches a check character
+                  computed by a generic algorithm in a different way.
 Since validate is deterministic (C13), "compact(r) is r and the body returns its input" gives
 validate(r) == r for every accepted r."""
 from ..common import Report, rel
 from .. import scope
+
+
+def table_fixpoints(rep, prog):
+    """C02.table-fixpoint: where validate() replaces a part of the number by a table lookup through a key function
+    (t = D.get(K(t)) / t = D[K(t)]), the returned spelling is looked up again when the result is validated: every
+    value v of the table must satisfy D[K(v)] == v.  Table and key function are evaluated from their module level
+    definitions (constant tuples, dict(...) / .update(...) of generator expressions) with the whitelisted evaluator."""
+    import ast
+    from ..common import src
+    from .. import minieval
+    n = 0
+    for mn, m in sorted(prog.mods.items()):
+        fn = m.funcs.get('validate')
+        if fn is None:
+            continue
+        file = rel(m.path)
+        for st in ast.walk(fn):
+            if not (isinstance(st, ast.Assign) and len(st.targets) == 1 and isinstance(st.targets[0], ast.Name)):
+                continue
+            t = st.targets[0].id
+            v = st.value
+            key = None
+            if isinstance(v, ast.Call) and isinstance(v.func, ast.Attribute) and v.func.attr == 'get' and isinstance(v.func.value, ast.Name) and len(v.args) == 1:
+                dname, key = v.func.value.id, v.args[0]
+            elif isinstance(v, ast.Subscript) and isinstance(v.value, ast.Name):
+                dname, key = v.value.id, v.slice
+            if not (isinstance(key, ast.Call) and isinstance(key.func, ast.Name) and len(key.args) == 1 and isinstance(key.args[0], ast.Name)
+                    and key.args[0].id == t and key.func.id in m.funcs):
+                continue
+            kfn = m.funcs[key.func.id]
+            body = [b for b in kfn.body if not (isinstance(b, ast.Expr) and isinstance(b.value, ast.Constant))]
+            n += 1
+            construct = src(st)
+            if not (len(body) == 1 and isinstance(body[0], ast.Return) and len(kfn.args.args) == 1):
+                rep.undecide('C02.table-fixpoint', file, 'key function %s is not a single expression' % kfn.name)
+                continue
+            param = kfn.args.args[0].arg
+
+            def K(x, body=body, param=param, env0=None):
+                return minieval.ev(body[0].value, {param: x})
+            # module level construction of the table
+            env = {}
+            table = None
+            try:
+                for top in m.tree.body:
+                    if isinstance(top, ast.Assign) and len(top.targets) == 1 and isinstance(top.targets[0], ast.Name):
+                        nm = top.targets[0].id
+                        if nm == dname:
+                            table = dict(minieval.ev(top.value, env, {kfn.name: K}))
+                        else:
+                            try:
+                                env[nm] = ast.literal_eval(top.value)
+                            except (ValueError, SyntaxError):
+                                pass
+                    elif isinstance(top, ast.Expr) and isinstance(top.value, ast.Call) and isinstance(top.value.func, ast.Attribute) \
+                            and isinstance(top.value.func.value, ast.Name) and top.value.func.value.id == dname and table is not None:
+                        if top.value.func.attr == 'update' and len(top.value.args) == 1:
+                            table.update(dict(minieval.ev(top.value.args[0], env, {kfn.name: K})))
+                        else:
+                            raise minieval.Undecidable('table modified by .%s()' % top.value.func.attr)
+                if table is None:
+                    raise minieval.Undecidable('no module level definition of %s' % dname)
+                bad = []
+                for v_ in sorted(set(table.values()), key=str):
+                    k_ = K(v_)
+                    if k_ not in table or table[k_] != v_:
+                        bad.append((v_, sorted(a for a, b in table.items() if b == v_)[:3], table.get(k_)))
+            except minieval.Undecidable as e:
+                rep.undecide('C02.table-fixpoint', file, 'table %s: %s' % (dname, e))
+                continue
+            for v_, aliases, back in bad:
+                rep.fail('C02.table-fixpoint', file, 'validate', '%s -> %r' % (construct, v_), st.lineno,
+                         '%s.validate() replaces the looked-up part by %r (stored under %s), but %s(%r) %s: validate() of its own result %s'
+                         % (mn.replace('stdnum.', ''), v_, aliases, kfn.name, v_, 'is not a key of %s' % dname if back is None else 'maps to %r' % back,
+                            'is rejected' if back is None else 'returns a different value'))
+            if not bad:
+                rep.ok('C02.table-fixpoint', '%s %s' % (file, construct), '%d table values are fixed points of %s o %s' % (len(set(table.values())), dname, kfn.name))
+    return n
+
+
+ALG_NAMES = {'luhn', 'verhoeff', 'damm', 'mod_11_2', 'mod_11_10', 'mod_37_2', 'mod_37_36', 'mod_97_10'}
+
+
+def generator_siblings(rep, mods):
+    """C02.generator-sibling: a module that has its own calc_check_digit(s)() attaches check characters that its own
+    validate() accepts again only if every place that attaches one computes it the same way.  A direct call of a generic
+    algorithm's generator outside that helper is accepted only when the helper is that very call (one return, same
+    algorithm, same constant arguments); otherwise the two disagree on the inputs where the helper chooses differently.
+    mods: iterable of (module name, file, ast.Module).  Returns (modules with a helper, direct call sites)."""
+    import ast
+    from ..common import src
+
+    def gen_calls(fn):
+        for n in ast.walk(fn):
+            if isinstance(n, ast.Call) and isinstance(n.func, ast.Attribute) and isinstance(n.func.value, ast.Name) \
+                    and n.func.value.id in ALG_NAMES and n.func.attr.startswith('calc_check_digit'):
+                yield n
+
+    def shape(call):
+        # algorithm, function, constant extra arguments (the first argument is the payload)
+        return (call.func.value.id, call.func.attr, tuple(src(a) for a in call.args[1:]), tuple(sorted((k.arg, src(k.value)) for k in call.keywords)))
+    nh = ns = 0
+    for mn, file, tree in mods:
+        helpers = [f for f in tree.body if isinstance(f, ast.FunctionDef) and f.name.startswith('calc_check_digit')]
+        if not helpers:
+            continue
+        nh += 1
+        hshapes = {}
+        for h in helpers:
+            rets = [r for r in ast.walk(h) if isinstance(r, ast.Return)]
+            calls = list(gen_calls(h))
+            hshapes[h.name] = shape(calls[0]) if len(rets) == 1 and len(calls) == 1 and rets[0].value is calls[0] else None
+        for f in ast.walk(tree):
+            if not isinstance(f, ast.FunctionDef) or f in helpers:
+                continue
+            for c in gen_calls(f):
+                ns += 1
+                same = [h for h, sh in hshapes.items() if sh is not None and sh == shape(c)]
+                rep.check(bool(same), 'C02.generator-sibling', file, f.name, src(c), c.lineno,
+                          '%s.%s() computes a check character with %s directly, while the module\'s own %s() %s: the attached character is not '
+                          'the one validate() expects wherever the two differ' % (mn.replace('stdnum.', ''), f.name, src(c.func), ' / '.join(sorted(hshapes)),
+                                                                                 'chooses the algorithm or its alphabet per input' if any(v is None for v in hshapes.values()) else 'uses other arguments'),
+                          what='%s.%s: %s is the module helper' % (mn, f.name, src(c)))
+    return nh, ns
 
 
 def check(tier):
@@ -62,6 +190,22 @@ def check(tier):
                      '%s: for the accepted value %s the second application gives %s' % (mn.replace('stdnum.', ''), p0[1], p0[2]))
         else:
             rep.ok('C02.fixed-point', '%s validate' % file, '%d accepted shapes re-validate to themselves' % x['paths'])
+    import ast as _ast
+    nh, ns = generator_siblings(rep, [(mn, rel(m.path), m.tree) for mn, m in sorted(I.prog.mods.items())])
+    rep.unit('modules with their own check digit generator', nh)
+    rep.unit('direct generic generator calls beside a module generator', ns)
+    if nh < 90:
+        rep.error('only %d modules with their own check digit generator found, 97 confirmed on the reference tree' % nh)
+    # the expected number of sites on a healthy tree is zero: the rule must still recognise the construct
+    probe = Report('C02', tier)
+    generator_siblings(probe, [('probe', 'probe.py', _ast.parse(
+        "def calc_check_digit(number):\n    if number.isdigit():\n        return luhn.calc_check_digit(number)\n    return luhn.calc_check_digit(number, alphabet='0123456789ABCDEF')\n"
+        "def validate(number):\n    return number + luhn.calc_check_digit(number, alphabet='0123456789ABCDEF')\n"))])
+    if len(probe.findings) != 1:
+        rep.error('C02.generator-sibling no longer recognises its positive example')
+    ntab = table_fixpoints(rep, I.prog)
+    rep.unit('normalisation tables', ntab)
+    rep.expect_at_least('C02.table-fixpoint', 1, 'normalisation tables used by validate()')
     rep.unit('modules', len(fx))
     rep.expect_at_least('C02.fixed-point', 200, 'modules')
     rep.not_decided = ['%s: %s' % kv for kv in sorted(scope.C02_UNDECIDED.items())]
